@@ -76,15 +76,15 @@ def replyOf : List String → Option Reply
 
 def go (toks : List String) : String :=
   match toks with
-  | "ep" :: ep :: mOk :: p1 :: p2 :: hashOk :: bodyOk :: chainOk :: signOk :: mask :: "|" :: rep =>
-    match epOf ep, parseBool? mOk, unhexStr p1, unhexStr p2, parseBool? hashOk, parseBool? bodyOk, parseBool? chainOk, parseBool? signOk, parseBool? mask, replyOf rep with
-    | some ep, some mOk, some p1, some p2, some hashOk, some bodyOk, some chainOk, some signOk, some mask, some rep =>
-      let cfg : Cfg := { mask := mask }
+  | "ep" :: ep :: mOk :: p1 :: p2 :: hashOk :: bodyOk :: chainOk :: signOk :: mask :: mp :: "|" :: rep =>
+    match epOf ep, parseBool? mOk, unhexStr p1, unhexStr p2, parseBool? hashOk, parseBool? bodyOk, parseBool? chainOk, parseBool? signOk, parseBool? mask, parseNat? mp, replyOf rep with
+    | some ep, some mOk, some p1, some p2, some hashOk, some bodyOk, some chainOk, some signOk, some mask, some mp, some rep =>
+      let cfg : Cfg := { mask := mask, mapper := mapperOf mp }
       let q : Req := { methodOk := mOk, p1 := p1, p2 := p2, hashOk := hashOk, bodyOk := bodyOk, chainOk := chainOk, signOk := signOk }
       let o := serve cfg ep q rep
       let base := s!"{o.status} {boolStr o.sct} {boolStr o.rpc}"
       if o.status ≥ 400 then base ++ " " ++ boolStr (errorTextShown cfg o.status) else base
-    | _, _, _, _, _, _, _, _, _, _ => "bad-op"
+    | _, _, _, _, _, _, _, _, _, _, _ => "bad-op"
   | _ => "bad-op"
 
 def handle (line : String) : String :=
